@@ -1,6 +1,6 @@
 #!/bin/sh
 # usage: try_mutant.sh <patch.diff> <property>...   — applies a patch to /repo, runs checks, reverts.
-p="$1"; shift
+p=$(realpath "$1"); shift
 cd /repo || exit 2
 if ! git diff --quiet; then echo "repo dirty"; exit 2; fi
 git apply "$p" || { echo "patch does not apply"; exit 2; }
